@@ -19,7 +19,7 @@ func init() { register(c02{}) }
 
 func (c02) ID() string { return "C02" }
 func (c02) Rule() string {
-	return "systematic: every location of gen.Universe(L<=6, arity<=3) as the single labelled host feature x every index 0..L x guest length {0,1,3} x {Insert,Embed}; seeded: hosts of length<=60 (BasicSequence and seqio.GenBank) with <=8 uniquely labelled features (joins<=5 parts, nesting<=3, both strands, partial ends, ambiguous spans, sites) and guests with <=3 features. Oracle: residues == host[:i]+guest+host[i:]; every host feature present once with equal key/qualifiers and base atoms == image under the insertion map (Insert: nothing covers a guest residue; Embed: a contiguous part strictly spanning i covers the guest in place), open-end markers map with their residues, sites map to either neighbour; guest features shifted by i; all coordinates within [0,newlen]. non-trivial: some feature is touched by the edit (i <= its high end); distinct: canonical case text. CLI layer: gts insert [-e] and gts infix [-e] of the real binary (--no-cache) on generated records, single and as streams of 2..3 records, judged by the C15 models (one guest copy per located region at its 5' position in input coordinates; a stream's output equals the outputs of its records alone)."
+	return "systematic: every location of gen.Universe(L<=6, arity<=3) as the single labelled host feature x every index 0..L x guest length {0,1,3} x {Insert,Embed}; seeded: hosts of length<=60 (BasicSequence and seqio.GenBank) with <=8 uniquely labelled features (joins<=5 parts, nesting<=3, both strands, partial ends, ambiguous spans, sites) and guests with <=3 features. Oracle: residues == host[:i]+guest+host[i:]; every host feature present once with equal key/qualifiers and base atoms == image under the insertion map (Insert: nothing covers a guest residue; Embed: a contiguous part strictly spanning i covers the guest in place), open-end markers map with their residues, sites map to either neighbour; guest features shifted by i; all coordinates within [0,newlen]. non-trivial: some feature is touched by the edit (i <= its high end); distinct: canonical case text. CLI layer: gts insert [-e] and gts infix [-e] of the real binary (--no-cache) on generated records, single and as streams of 2..3 records, judged by the C15 models (one guest copy per located region at its 5' position in input coordinates; a stream's output equals the outputs of its records alone). Guests are also seqio.GenBank records, among them CONTIG-only records (no residues, whatever span the CONTIG names)."
 }
 func (c02) RequiredBuckets(tier string) []string {
 	var out []string
@@ -32,6 +32,7 @@ func (c02) RequiredBuckets(tier string) []string {
 		}
 		out = append(out, op+"|guest:empty", op+"|guest:empty-with-features", op+"|guest:plain", op+"|guest:features", op+"|host:genbank", op+"|host:basic")
 	}
+	out = append(out, "guest:genbank-record", "guest:contig-only-record")
 	out = append(out, "cmd:insert", "cmd:insert -e", "cmd:infix", "stream:records-independent", "cache-on:after-sibling")
 	return out
 }
@@ -288,6 +289,7 @@ func (m c02) Run(c *fw.Ctx) {
 			kind = "genbank"
 		}
 		embed := r.Intn(2) == 0
+		gk, span := r.Intn(5), 1+r.Intn(30)
 		if c.Replaying() && c.Seq() != c.ReplaySeq {
 			continue
 		}
@@ -296,6 +298,20 @@ func (m c02) Run(c *fw.Ctx) {
 		k := &insCase{hostTab: tab, hostB: hostB, guestTab: gtab, guestB: guestB, i: i, embed: embed, hostKind: kind}
 		k.host = mkHost(kind, tab, hostB)
 		k.guest = gts.New(nil, gen.SortedTable(gen.CloneTable(gtab)), append([]byte(nil), guestB...))
+		switch {
+		case gk == 0:
+			// a guest that is a GenBank record itself.
+			k.guest = mkHost("genbank", gtab, guestB)
+			c.Bucket("guest:genbank-record")
+		case gk == 1 && n == 0:
+			// a record that refers to its residues through CONTIG only: it
+			// holds no residues, whatever span the CONTIG names.
+			gb := mkHost("genbank", gtab, nil).(seqio.GenBank)
+			gb.Fields.Contig = seqio.Contig{Accession: "U00096.3", Region: gts.Segment{0, span}}
+			gb.Origin = seqio.NewOrigin(nil)
+			k.guest = gb
+			c.Bucket("guest:contig-only-record")
+		}
 		m.check(c, k)
 	}
 	// the commands the property names as observation points, on the real binary.
